@@ -13,7 +13,7 @@ ALL = [f"C{i:02d}" for i in range(1, 21)]
 
 checks = []
 for pid in ALL:
-    if pid not in registry.REG:
+    if pid not in registry.REG or not registry.REG[pid]['theorems']:
         continue
     r = registry.REG[pid]
     checks.append({
@@ -28,7 +28,7 @@ for pid in ALL:
         "technique": r["technique"],
     })
 na = [{"property_id": pid, "reason": registry.NOT_APPLICABLE.get(pid, "check not built yet; no claim is made for this property")}
-      for pid in ALL if pid not in registry.REG]
+      for pid in ALL if pid not in registry.REG or not registry.REG[pid]['theorems']]
 m = {
     "version": 1,
     "setup_cmd": "cd lean && lake build driver NirVerif",
